@@ -257,6 +257,25 @@ def run(ctx):
            key="R19.9:handleMidi:learn",
            what="handleMidi can bind a learning slot at %s with `%s` still at its initial value: a message that identifies no controller (an incomplete NRPN sequence) is learned as controller 0" % (esc9.where() if esc9 is not None else "", idname))
 
+    # ---- R19.13: a binding starts from its own scale
+    ctx.rule("R19.13", "SCALE-FRESH: createBinding and setSlotSubPath reuse the sub-automation of an earlier binding; before they hand it to updateMapping every path has assigned map.control_scale "
+                       "(logarithmic or not is a property of the new parameter) - a flag that is only ever raised survives clearSlot and the next, linear parameter is mapped through exp")
+    for q13 in ("AutomationMgr::createBinding", "AutomationMgr::setSlotSubPath"):
+        f13 = u.function(q13)
+        top13 = A.kids(u.body(f13))
+        upd = [i_ for i_, s_ in enumerate(top13) if any(A.callee_name(c_) == "updateMapping" or (A.strip_casts(A.kids(c_)[0]).get("name") == "updateMapping" if A.kids(c_) else False) for c_ in A.walk(s_) if c_.get("kind") in ("CallExpr", "CXXMemberCallExpr"))]
+        ctx.require(len(upd) >= 1, "R19.13: %s: the call of updateMapping was not found among its statements" % q13)
+        before13 = top13[:upd[0]]
+        ok13 = any(_definitely_assigns(s_, "control_scale") for s_ in before13)
+        some13 = any(_assigns_member(y_, "control_scale") for s_ in before13 for y_ in A.walk(s_))
+        if not some13:
+            # written somewhere else (a helper that sets the whole mapping): not followed
+            helpers13 = [c_ for s_ in before13 for c_ in A.walk(s_) if c_.get("kind") in ("CallExpr", "CXXMemberCallExpr")]
+            raise AnalysisBroken("R19.13: %s does not assign control_scale itself; %d calls before updateMapping are not followed" % (q13, len(helpers13)))
+        ctx.ob("R19.13", q13.split("::")[-1], ok13, site=A.where(f13), detail={"statements_before_updateMapping": len(before13)},
+               key="R19.13:%s" % q13.split("::")[-1],
+               what="%s assigns map.control_scale on some paths only before it calls updateMapping: on the others the sub-automation keeps the scale of the parameter it was bound to before" % q13.split("::")[-1])
+
     # ---- R19.6
     um = u.function("AutomationMgr::updateMapping")
     read_fields = set()
@@ -647,4 +666,35 @@ def _contains(root, node):
     for x in A.walk(root):
         if x.get("id") == nid:
             return True
+    return False
+
+
+def _assigns_member(y, name):
+    if y.get("kind") in ("BinaryOperator", "CompoundAssignOperator") and y.get("opcode") == "=":
+        l = A.strip_casts(A.kids(y)[0])
+        return l.get("kind") == "MemberExpr" and l.get("name") == name
+    return False
+
+
+def _definitely_assigns(st, name):
+    """every path through the statement assigns the member (if: both branches; a block: one of its statements; no loops)"""
+    k = st.get("kind")
+    if k in ("CompoundStmt",):
+        return any(_definitely_assigns(s_, name) for s_ in A.kids(st))
+    if k == "IfStmt":
+        ks = A.kids(st)
+        lead = (1 if st.get("hasInit") else 0) + (1 if st.get("hasVar") else 0)
+        branches = ks[lead + 1:]
+        return len(branches) == 2 and all(_definitely_assigns(b_, name) for b_ in branches)
+    if k in ("ForStmt", "WhileStmt", "DoStmt", "SwitchStmt", "CXXForRangeStmt"):
+        return False
+    if k in ("ExprWithCleanups", "ParenExpr"):
+        return any(_definitely_assigns(s_, name) for s_ in A.kids(st))
+    if _assigns_member(st, name):
+        return True
+    if k == "BinaryOperator" and st.get("opcode") == ",":
+        return any(_definitely_assigns(s_, name) for s_ in A.kids(st))
+    if k == "ConditionalOperator":
+        ks = A.kids(st)
+        return all(_definitely_assigns(b_, name) for b_ in ks[1:])
     return False
